@@ -1555,7 +1555,82 @@ func (x *TX) bufTerm(obj ssa.Value, at ssa.Instruction) *Term {
 		t.F = append(t.F, "!late")
 		t.A = append(t.A, unknown("buffer written after this use"))
 	}
+	if c := partitionedBuf(t, size, sizeKnown); c != nil {
+		return c
+	}
 	return t
+}
+
+// partitionedBuf: a fixed-size buffer every byte of which is written exactly once by
+// writers of intrinsic width (fixed-width integers, single constant bytes), in windows
+// that tile [0,N): the same bytes as the concatenation of the values (cat normal form).
+// nil when the buffer is not of that shape (copies of variable-length data, gaps, overlaps,
+// conditional or late writers).
+func partitionedBuf(t *Term, size int, sizeKnown bool) *Term {
+	if !sizeKnown && len(t.A) >= 2 {
+		// make([]byte, C+len(x)) filled by fixed-width values over [0:C) and copy(buf[C:], x):
+		// the tail window is exactly len(x) long, so the copy is the whole of x
+		last := len(t.A) - 1
+		var c int
+		tail := t.A[last]
+		if n, _ := fmt.Sscanf(t.F[last], "[%d:]", &c); n == 1 && t.F[last] == fmt.Sprintf("[%d:]", c) &&
+			(t.S == fmt.Sprintf("(len(%s) + %d)", tail, c) || t.S == fmt.Sprintf("(%d + len(%s))", c, tail)) {
+			head := &Term{Op: "buf", S: strconv.Itoa(c), A: t.A[:last], F: t.F[:last]}
+			if hc := partitionedBuf(head, c, true); hc != nil {
+				return catOf(hc, tail)
+			}
+			if len(head.A) == 1 {
+				if segs := catSegs(&Term{Op: "buf", S: head.S, A: head.A, F: []string{"[0:]"}}); len(segs) == 1 && head.F[0] == fmt.Sprintf("[0:%d]", c) && segs[0] != nil && segs[0].Op == "call" {
+					return catOf(segs[0], tail)
+				}
+			}
+		}
+		return nil
+	}
+	if !sizeKnown || size <= 0 || len(t.A) == 0 {
+		return nil
+	}
+	width := map[string]int{"be16": 2, "be32": 4, "be64": 8, "le16": 2, "le32": 4, "le64": 8}
+	pos := 0
+	var segs []*Term
+	var lit []byte
+	flush := func() {
+		if len(lit) > 0 {
+			segs = append(segs, &Term{Op: "conv", S: "[]byte", A: []*Term{{Op: "const", S: strconv.Quote(string(lit))}}})
+			lit = nil
+		}
+	}
+	for i, rng := range t.F {
+		var lo, hi int
+		v := t.A[i]
+		switch {
+		case rng == fmt.Sprintf("[%d]", pos):
+			b, ok := isIntConst(v)
+			if !ok || b < 0 || b > 255 {
+				return nil
+			}
+			lit = append(lit, byte(b))
+			pos++
+			continue
+		case func() bool { n, _ := fmt.Sscanf(rng, "[%d:%d]", &lo, &hi); return n == 2 && rng == fmt.Sprintf("[%d:%d]", lo, hi) }():
+		case func() bool { n, _ := fmt.Sscanf(rng, "[%d:]", &lo); hi = size; return n == 1 && rng == fmt.Sprintf("[%d:]", lo) }():
+		case rng == "[:]" || rng == "[0:]":
+			lo, hi = 0, size
+		default:
+			return nil
+		}
+		if lo != pos || v.Op != "call" || width[v.S] == 0 || hi-lo != width[v.S] {
+			return nil
+		}
+		flush()
+		segs = append(segs, v)
+		pos = hi
+	}
+	flush()
+	if pos != size || len(segs) < 2 {
+		return nil
+	}
+	return &Term{Op: "cat", A: segs}
 }
 
 func (x *TX) sliceTerm(v *ssa.Slice, at ssa.Instruction) *Term {
